@@ -1345,6 +1345,22 @@ pub fn c12_judge(c: &C12Case, obs: &mut Obs) -> Result<(), String> {
                 return Err("wrapping a single timeline changed its metadata".into());
             }
         }
+        // ... nor about its values, whichever public route wraps it - also when the timeline already
+        // carries a substituted start value
+        let already = seq[0].clone();
+        let routes: [(&str, MergedTimeline<PTimeline>); 3] = [("MergedTimeline::from", MergedTimeline::from(already.clone())), ("TimelineOrBuilder::build", mina::TimelineOrBuilder::build(already.clone())), ("MergedTimeline::of", MergedTimeline::of([already.clone()]))];
+        for ts in c.times.iter() {
+            let t = ts.resolve(&c.tls[0]);
+            let mut want = sentinel(23);
+            already.update(&mut want, t);
+            for (name, m) in &routes {
+                let mut got = sentinel(23);
+                m.update(&mut got, t);
+                if got.bits() != want.bits() {
+                    return Err(format!("{name}(timeline) evaluated at t={t:?} gives {:?}, the timeline itself {:?} (start value substituted before wrapping: {})", got, want, c.start.is_some()));
+                }
+            }
+        }
     }
     // --- evaluation: merged == sequential application
     let reordered: Option<Vec<usize>> = if c.disjoint && n >= 2 { Some(lehmer_perm(&c.perm, n)) } else { None };
